@@ -93,6 +93,18 @@ CHECKS = {
         note="Bounded: names {f1,f2}x{a.txt,b.txt}, depth per harness in the evidence file; CPython/pydantic trusted.",
         design_ref="DESIGN.md §4 C15",
     ),
+    "C03": dict(
+        technique="world enumeration: every program executed in every member of a finite product of process-level answers (PYTHONHASHSEED in separate interpreters x uuid stream x MAC/ICMP-id stream x clock x logging); trajectory digests compared",
+        text="Programs (generated scenario with every stochastic agent type and network-wide nmap scans, data_manipulation, UC7/TAP001, "
+             "UC7/TAP003; several seeds; do-nothing and single-deviation action scripts; two seeded episodes each) are executed in separate "
+             "interpreter processes started with PYTHONHASHSEED 0..2 (thorough 0..7), and inside each in 6 pairwise-covering (thorough: all "
+             "16) combinations of identifier streams (uuid, MAC, 1-digit vs 5-digit ICMP ids), clocks (ticking / frozen at microsecond 0) "
+             "and logging (off / sys+pcap+agent logs at DEBUG). Per-step digests of nested observation, reward and every agent's action, "
+             "parameters, request, response status and data (ids normalised, dict order ignored, list order kept) must be identical in "
+             "all worlds, and reset(seed) must reproduce the first episode.",
+        note="A finite set of hash seeds and streams, not all of them; torch's RNG is not involved (the environment uses it for nothing).",
+        design_ref="DESIGN.md §4 C03",
+    ),
     "C04": dict(
         technique="exhaustive enumeration of dirty histories with differential comparison against a fresh environment; enumeration of ALL order-preserving interleavings of two environment instances' programs; object-graph disjointness",
         text="Episode isolation: for every dirty history (all sequences up to length 2, thorough 3 with ticks/resets in between) over a "
